@@ -1,4 +1,5 @@
 import SigModel.Driver.HubCommon
+import SigModel.Model.HubView
 
 /-! Driver for C04: the shared hub model (`Model/Hub.lean`) with this property's judge. -/
 namespace SigModel.Driver.C04
@@ -18,6 +19,6 @@ def judgeMembers (st : St) (impl : ImplOut) : List String :=
     [s!"member-set-differs:{joinWith "," (d.take 4)}"]
 
 def step (st : St) (op impl : List String) : St × String × String :=
-  stepWith (fun st _ _ impl => verdictOf ((judgeTables impl).filter (fun e => !(hasPrefix "residue" e) && !(hasPrefix "listener" e)) ++ judgeViews st.views impl ++ judgeMembers st impl)) st op impl
+  stepWith (fun st _ _ impl => verdictOf ((judgeTables impl).filter (fun e => !(hasPrefix "residue" e) && !(hasPrefix "listener" e)) ++ judgeViews st.views impl ++ judgeMembers st impl ++ (viewBad st.hub).map (fun s => s!"model-view-differs:s{s}"))) st op impl
 
 end SigModel.Driver.C04
